@@ -243,7 +243,7 @@ func flattenFD(fd *descriptorpb.FileDescriptorProto) map[string]string {
 }
 
 func runC20(cx *Ctx, r *Report) {
-	r.Explanation = "F6 translation validation: (1) the gzipped file descriptors embedded in modules/**/*.pb.go and the raw descriptors embedded in api/**/*.pulsar.go are extracted from the Go syntax tree, decoded with descriptorpb and compared element by element (messages, fields: number/label/type/type name/json name/oneof/options; enums and values; services, rpcs and their options; file-level options excluded); (2) a proto3 skeleton parser over proto/irismod/**/*.proto must agree with both descriptor sets; (3) every rpc input of a service carrying cosmos.msg.v1.service is an argument of RegisterImplementations((*sdk.Msg)(nil), …) in the package that holds its gogoproto code, RegisterMsgServiceDesc is called there, and its cosmos.msg.v1.signer option names an existing string field carrying the cosmos.AddressString scalar (through a nested message's own signer where the field is a message); (4) gogoproto struct tags, Marshal key bytes, Unmarshal case labels and the pulsar fast-reflection field names agree with the descriptor. Decides descriptor and wiring agreement for every element; byte-level round trips follow only under the assumption that both runtimes implement the protobuf wire format for a given descriptor."
+	r.Explanation = "F6 translation validation: (1) the gzipped file descriptors embedded in modules/**/*.pb.go and the raw descriptors embedded in api/**/*.pulsar.go are extracted from the Go syntax tree, decoded with descriptorpb and compared element by element (messages, fields: number/label/type/type name/json name/oneof/options; enums and values; services, rpcs and their options; file-level options excluded); (2) a proto3 skeleton parser over proto/irismod/**/*.proto must agree with both descriptor sets; (3) every rpc input of a service carrying cosmos.msg.v1.service is an argument of RegisterImplementations((*sdk.Msg)(nil), …) in the package that holds its gogoproto code, RegisterMsgServiceDesc is called there, and its cosmos.msg.v1.signer option names an existing string field carrying the cosmos.AddressString scalar (through a nested message's own signer where the field is a message); (4) gogoproto struct tags, Marshal key bytes, Unmarshal case labels and the pulsar fast-reflection field names agree with the descriptor; (5) every gogoproto decoder allocates a nullable nested message whenever it is nil, after the rejecting length checks and under no other condition, so a present-but-empty nested message written by the other family does not decode as absent. Decides descriptor and wiring agreement for every element; byte-level round trips follow only under the assumption that both runtimes implement the protobuf wire format for a given descriptor."
 	r.Assumptions = []string{"descriptorpb decodes FileDescriptorProto correctly", "the golang/protobuf and gogoproto runtimes encode a message as its descriptor says", "file-level options (go_package and gogoproto *_all switches) are code-generator options and are excluded, as the property states"}
 	repo := cx.Repo
 	gogoFiles := []string{}
